@@ -70,6 +70,10 @@ def Dy.ofIntD (i : Int) : Dy :=
   let v : Int := (q * 2 ^ k : Nat)
   ⟨if i < 0 then -v else v, 0⟩
 
+/-- `(double)x` for a 64-bit integer: the value itself while |x| < 2^53, rounded to nearest-even beyond -/
+def Dy.ofInt64 (x : Int) : Dy :=
+  if -9007199254740992 < x ∧ x < 9007199254740992 then Dy.ofInt x else Dy.ofIntD x
+
 /-! ## values, blocks, heap -/
 
 abbrev Bytes := List UInt8
@@ -350,15 +354,15 @@ def mkString (s : Bytes) : V := if s.length < 8 then .sstr s else .str s
 def mkInt (i : Int) : V := .int i
 /-- `Var(unsigned)` and `operator=(unsigned)`: INT below 2^31, NUMBER from there on -/
 def mkUnsigned (u : Nat) : V := if u < 2147483648 then .int u else .num (Dy.ofInt u)
-/-- `Var(Long)`, `Var(ULong)`: always NUMBER (`(double)y`, exact for |y| < 2^53) -/
-def mkLong (x : Int) : V := .num (Dy.ofInt x)
+/-- `Var(Long)` / `operator=(Long)`: always NUMBER, `(double)y` (exact for |y| < 2^53, rounded beyond) -/
+def mkLong (x : Int) : V := .num (Dy.ofInt64 x)
 /-- `Var(ULong)` / `operator=(ULong)` (commit c047585: no detour through `Long`): NUMBER `(double)u`, exact below 2^53,
 rounded to nearest-even above -/
 def mkULong (u : Nat) : V := .num (if u < 9007199254740992 then Dy.ofInt u else Dy.ofIntD u)
 /-- `Var(long)` / `operator=(long)` on LP64 (commit 6c0507b): INT inside the int range, NUMBER outside -/
-def mkNativeLong (x : Int) : V := if -2147483648 ≤ x ∧ x < 2147483648 then .int x else .num (Dy.ofInt x)
+def mkNativeLong (x : Int) : V := if -2147483648 ≤ x ∧ x < 2147483648 then .int x else .num (Dy.ofInt64 x)
 /-- `Var(unsigned long)` / `operator=(unsigned long)` -/
-def mkNativeULong (u : Nat) : V := if u < 2147483648 then .int u else .num (Dy.ofInt u)
+def mkNativeULong (u : Nat) : V := if u < 2147483648 then .int u else .num (Dy.ofInt64 u)
 /-- `Var(double)` -/
 def mkDouble (d : Dy) : V := .num d
 /-- `Var(float)` -/
@@ -1113,7 +1117,12 @@ def cycleGuard (h : Heap) (parent : Option Nat) (src : V) : Except Err Unit :=
   | .ok false => .ok ()
 
 /-- the value read through the source reference once the target path has been evaluated (`none`: the static
-`Var::none`).  The failure branch is never taken after the `invalidates` guard. -/
+`Var::none`).  The failure branch is meant to be unreachable after the `invalidates` guard, but that is NOT PROVED
+(second audit): a failing read (uaf / oob) is reported as `srcMoved`, i.e. filed under the known finding.  Suggested
+repair: prove `Inv σ [] → cloc σ q = .ok (some l) → resolveMut true (some l) σ (.slot p.root) p.steps = (σ1, .ok t) →
+readLoc σ1 l = readLoc σ l` (the block of `l` moves only through `relocate` at a location whose handle is that block,
+which is what the guard refuses; items only grow), then return the real error here and restate `assign_spec` with the
+value read before the statement. -/
 def srcVal (σ : State) (sl : Option Loc) : Except Err V :=
   match sl with
   | none => .ok V.none
